@@ -104,7 +104,8 @@ TruncDiv(a, b)     == IF a >= 0 THEN a \div b ELSE -((-a) \div b)
 CapNum(i)          == (i.total - i.reserved) * i.num
 CapInt(i)          == TruncDiv(CapNum(i), i.den)
 \* "u units fit under the capacity of inventory i"  (exact rational comparison)
-Fits(i, u)         == u * i.den <= CapNum(i)
+\* u * den <= CapNum, written with floor division so that no product of an amount leaves TLC's integers
+Fits(i, u)         == u <= CapNum(i) \div i.den
 UnitsOK(i, a)      == a >= i.min_unit /\ a <= i.max_unit /\ a % i.step_size = 0
 Over(s, p, k)      == HasInv(s, p, k) /\ ~Fits(s.inv[p][k], Used(s, p, k))
 \* room for a further amount a on (p, k), as used by listing and candidates
